@@ -10,7 +10,7 @@ sys.path.insert(0, "checks")
 import framework as fw
 bins = sorted(os.path.basename(p)[:-3] for p in glob.glob(os.path.join(fw.HARNESS, "src", "bin", "*.rs")))
 plan = [("std64", b) for b in bins] + [(v, b) for v in ("release", "w32", "nostd") for b in ("c01", "c02", "c09", "c19")]
-plan += [("release", b) for b in ("c12", "c13", "c16", "c17")] + [("nostd", "c12")]
+plan += [("release", b) for b in ("c12", "c13", "c16", "c17", "c17g", "c07")] + [("nostd", "c12"), ("nostd", "c07"), ("w32", "c07")]
 for v, b in plan:
     try:
         fw.build(v, b)
